@@ -2,7 +2,7 @@
    "partial": serde_json's writer is modelled by [serialise] (checked against the real bytes by
    the correspondence run, not verified); schema conformance of all fields is an oracle. *)
 From Coq Require Import Lia.
-From RM Require Import C15.Model C15.Schema C15.Widths C15.Proofs C15.Proofs2 C15.Proofs3 C15.Proofs4.
+From RM Require Import C15.Model C15.Schema C15.Widths C15.Utf8 C15.Proofs C15.Proofs2 C15.Proofs3 C15.Proofs4 C15.Proofs5.
 Open Scope Z_scope.
 
 (* Escaping is total and correct: every JSON value — arbitrary nesting, arbitrary integers,
@@ -246,6 +246,26 @@ Theorem c15_widths_rejects :
   length (address_str W32 (two32 + 5)) = 11%nat.
 Proof. vm_compute. repeat split; reflexivity. Qed.
 Print Assumptions c15_widths_rejects.
+
+(* VALID UTF-8.  The bytes of the report are the UTF-8 encoding [utf8] of the serialised code points.  For every JSON value whose
+   strings (member names and values) consist of Unicode scalar values — which is what Rust `String`s hold: control characters,
+   quotes, backslashes, U+2028, U+FFFD from lossy decoding, non-BMP — those bytes are accepted by the STRICT decoder (no overlong
+   forms, no surrogates, nothing above U+10FFFF, no stray continuation byte) and decode to exactly the serialised code points, which
+   parse back to the value: bytes -> code points -> value is total and lossless. *)
+Theorem c15_utf8 : forall v, jscalar v = true ->
+  utf8_decode (length (utf8 (serialise v))) (utf8 (serialise v)) = Some (serialise v) /\
+  parse (serialise v) = Some v /\ forallb scalar (serialise v) = true.
+Proof. intros v H. split; [exact (report_bytes_utf8 v H)|]. split; [apply serialise_parse|exact (serialise_scalar v H)]. Qed.
+Print Assumptions c15_utf8.
+
+(* the decoder is strict, and the encoder is the standard one on U+00E9, U+2028, U+FFFD, U+1F600 *)
+Theorem c15_utf8_rejects :
+  utf8_decode 2 [192; 128] = None /\ utf8_decode 3 [237; 160; 128] = None /\ utf8_decode 4 [244; 144; 128; 128] = None /\
+  utf8_decode 1 [128] = None /\ utf8_decode 3 [224; 128; 128] = None /\ utf8_decode 2 [226; 128] = None /\
+  utf8 [233; 8232; 65533; 128512] = [195; 169; 226; 128; 168; 239; 191; 189; 240; 159; 152; 128] /\
+  utf8_decode 12 (utf8 [233; 8232; 65533; 128512]) = Some [233; 8232; 65533; 128512].
+Proof. vm_compute. repeat split; reflexivity. Qed.
+Print Assumptions c15_utf8_rejects.
 
 (* Every member name print_json can emit — read off the source by translate/c15_keys.py on every run: the keys of its
    json! literals, map["..."] assignments and insert(String::from("...")) calls, plus the fields of the serde-derived
